@@ -74,6 +74,9 @@ def gen_session(rng, tier='quick', exact=None, alpha_kinds=('fixed', 'single', '
     end = (d0 + nd) * DAY + 86340
     if rebal[0] == 'eom':
         end = (d0 + nd + rng.randint(20, 70)) * DAY + 86340
+    if rng.random() < 0.15:
+        # a date-only end, or an end at another time of day (also earlier in the day than the start's time of day)
+        end = (end // DAY) * DAY + rng.choice([0, 0, OPEN, CLOSE, 3600 * 9, OPEN - 1, CLOSE - 1])
     n_assets = rng.randint(2, 4) if outside_universe else rng.randint(1, 4)
     assets = ASSETS[:n_assets]
     long_only = rng.random() < 0.5
@@ -160,6 +163,24 @@ def gen_session(rng, tier='quick', exact=None, alpha_kinds=('fixed', 'single', '
             'stream': kind + ':' + rebal[0] + (':exact' if exact else ':float')}
 
 
+def gen_timed_session(rng, tier, max_days=None):
+    """a session whose alpha model changes its weight dictionary (also its key set, also keys outside the universe) with time"""
+    c = gen_session(rng, tier, fixed_only=True, all_quoted=True, allow_dynamic=False, max_days=max_days, outside_universe=(rng.random() < 0.7))
+    cfg = c['cfg']
+    closes = [t for t, k in event_times(cfg['start'], cfg['end']) if k == 'market_close']
+    table = []
+    for t in sorted(rng.sample(closes, min(len(closes), rng.randint(2, 4)))) if closes else []:
+        keys = rng.sample(c['assets'], rng.randint(0, len(c['assets'])))
+        if cfg['long_only']:
+            ws = [[a, rng.choice([0.25, 0.5, 1.0, 0.125])] for a in keys]
+        else:
+            ws = [[a, rng.choice([0.25, -0.5, 1.0, -0.125, 0.5])] for a in keys]
+        table.append([t - rng.choice([0, 0, 3600]), ws])
+    cfg['alpha'] = ['timed', table]
+    c['stream'] = 'timed:' + cfg['rebal'][0] + (':exact' if c['exact'] else ':float')
+    return c
+
+
 # ---------------------------------------------------------------- model encoding
 def cfg_val(cfg):
     u = cfg['universe']
@@ -169,6 +190,8 @@ def cfg_val(cfg):
         av = ['fixed', [[k, Fraction(v)] for k, v in a[1]]]
     elif a[0] == 'single':
         av = ['single', Fraction(a[1])]
+    elif a[0] == 'timed':
+        av = ['fixed', []]          # time-varying weights are not in the session model: compared through the recorded rows only
     elif a[0] == 'topn':
         av = ['topn', int(a[1]), int(a[2])]
     else:
@@ -222,6 +245,9 @@ def compare_session(c, impl, mod, j):
     """model trace vs implementation outputs"""
     out = j.disagreements
     tol = Fraction(1, 10**9) * Fraction(sess_scale(c))
+    if c['cfg']['alpha'][0] == 'timed':
+        j.tags.append('model_skipped')
+        return
     if impl['init'][0] == 'err' or mod[0] == 'err':
         mi = mod[1] if mod[0] == 'err' else 'ok'
         ii = impl['init'][1] if impl['init'][0] == 'err' else 'ok'
